@@ -443,7 +443,7 @@ REGISTRY = {
                      'PP.C07.output_reads_back', 'PP.C07.utc_denotes', 'PP.C07.enum_denotes', 'PP.C07.date_denotes', 'PP.C07.time_inRd',
                      'PP.C07.datetime_inRd', 'PP.C07.timezone_inRd', 'PP.C07.deque_inRd', 'PP.C07.deque_denotes', 'PP.C07.chainmap_inRd',
                      'PP.C07.oneArg_inRd', 'PP.C07.defaultdict_inRd', 'PP.C07.isNumTok_intLit', 'PP.C07.path_denotes',
-                     'PP.C07.timedelta_tokens', 'PP.C07.timedelta_reads_back', 'PP.C07.timedelta_pformat_reads_back', 'PP.C07.daysDoc_arg',
+                     'PP.C07.timedelta_tokens', 'PP.C07.timedelta_reads_back', 'PP.C07.timedelta_pformat_reads_back', 'PP.C07.timedelta_tokens_injective', 'PP.C07.daysDoc_arg',
                      'PP.C07.tdSum_filter', 'PP.C07.TEq.noLit_eq', 'PP.C07.numTok_intLit',
                      'PP.C07.td_attrs_from_source', 'PP.C07.td_attrs_known', 'PP.C07.td_divmods_from_source', 'PP.C07.td_consts_from_source'],
         'modules': VALUE_MODULES + ['PP.Model.Std', 'PP.Props.C07', 'PP.Generated', 'PP.Props.PrinterInventory', 'PP.Props.C04', 'PP.Props.C07b',
